@@ -401,6 +401,9 @@ func main() {
 	}
 	d.flushMig()
 
+	// current definitions with one targeted change: the reader's verdict against valid_current
+	d.runReadChecks(r.Fork("read"), tierCount(o, 300, 20000))
+
 	// legacy definitions
 	rl := r.Fork("legacy")
 	for i := 0; i < tierCount(o, 50, 3000); i++ {
